@@ -25,6 +25,18 @@ type Loc struct {
 	B *cfg.Block
 	I int
 	P token.Pos
+	// Orig is set for a construct that a transparent helper executes (code that
+	// moved out of this unit into a novel private function): B/I/P place it at
+	// the helper call in the caller, Orig is where it stands inside the helper.
+	// Guards established and locks taken inside the helper on the way to the
+	// construct hold for it as well as those of the call site.
+	Orig *OrigLoc
+}
+
+// OrigLoc: see Loc.Orig.
+type OrigLoc struct {
+	G *Graph
+	L Loc
 }
 
 func (l Loc) Valid() bool { return l.B != nil }
@@ -74,7 +86,7 @@ func (g *Graph) LocOf(n ast.Node) Loc {
 			if nd.Pos() <= n.Pos() && n.End() <= nd.End() {
 				l := nd.End() - nd.Pos()
 				if bestLen < 0 || l < bestLen {
-					best, bestLen = Loc{b, i, n.Pos()}, l
+					best, bestLen = Loc{B: b, I: i, P: n.Pos()}, l
 				}
 			}
 		}
@@ -194,7 +206,7 @@ func (g *Graph) ReturnLocs() []Loc {
 	for _, b := range g.Blocks {
 		for i, n := range b.Nodes {
 			if _, ok := n.(*ast.ReturnStmt); ok {
-				out = append(out, Loc{b, i, n.Pos()})
+				out = append(out, Loc{B: b, I: i, P: n.Pos()})
 			}
 		}
 	}
@@ -385,6 +397,9 @@ func (g *Graph) GuardedBy(loc Loc, guard Guard) bool {
 			}
 		}
 	}
+	if loc.Orig != nil && loc.Orig.G != g {
+		return loc.Orig.G.GuardedBy(loc.Orig.L, guard)
+	}
 	return false
 }
 
@@ -539,6 +554,17 @@ func copySet(m map[string]bool) map[string]bool {
 // HeldAt returns the set of mutexes that are held on every path reaching
 // loc (keys as LockKey; read locks carry the suffix "#R").
 func (g *Graph) HeldAt(loc Loc) map[string]bool {
+	if loc.Orig != nil && loc.Orig.G != g {
+		outer := loc
+		outer.Orig = nil
+		cur := g.HeldAt(outer)
+		for k, v := range loc.Orig.G.HeldAt(loc.Orig.L) {
+			if v {
+				cur[k] = true
+			}
+		}
+		return cur
+	}
 	if g.held == nil {
 		g.computeHeld()
 	}
@@ -643,7 +669,7 @@ func (g *Graph) DominatedNodes(cb *cfg.Block, k int) []ast.Node {
 		if len(b.Nodes) == 0 {
 			continue
 		}
-		l := Loc{b, 0, b.Nodes[0].Pos()}
+		l := Loc{B: b, I: 0, P: b.Nodes[0].Pos()}
 		if b == cb {
 			continue
 		}
